@@ -182,9 +182,43 @@ def new_inspector(name, tracing=False):
     constructor takes tracing=True (debug trace of what it finds); nothing
     it concludes may depend on that."""
     m = fi()
+    # tracing == 'debug': the deployment also has DEBUG logging switched on
+    # for the module, so the trace is really rendered (C07-r9-2: a debug
+    # dump that consumes what the parser needs afterwards)
+    debug_logging(tracing == 'debug')
     if tracing:
         return m.ALL_FORMATS[name](tracing=True)
     return m.ALL_FORMATS[name]()
+
+
+class _RenderingSink(__import__('logging').Handler):
+    """Formats every record (as a real handler would) and drops it."""
+    rendered = 0
+
+    def emit(self, record):
+        record.getMessage()
+        _RenderingSink.rendered += 1
+
+
+_SINK = _RenderingSink()
+
+
+def debug_logging(on):
+    """Switch DEBUG logging of the inspector module on or off (a fact of the
+    deployment, like tracing=: no conclusion may depend on it)."""
+    import logging
+    lg = getattr(fi(), 'LOG', None)
+    if lg is None or not hasattr(lg, 'setLevel'):
+        return
+    if on:
+        if _SINK not in lg.handlers:
+            lg.addHandler(_SINK)
+        lg.propagate = False
+        lg.setLevel(logging.DEBUG)
+    elif _SINK in lg.handlers:
+        lg.removeHandler(_SINK)
+        lg.propagate = True
+        lg.setLevel(logging.NOTSET)
 
 
 def streams_mod():
